@@ -1,4 +1,3 @@
-
 package checks
 
 import (
